@@ -501,6 +501,10 @@ func Tree(t *rapid.T, o TreeOpts, depth int, label string) *model.Node {
 		if o.KeyType != "" && rapid.IntRange(0, 4).Draw(t, label+"ksc") == 0 {
 			n.AddShortcut(o.KeyType, Tree(t, o, depth-1, label+".ks"))
 		}
+		if len(n.Kids) == 0 && rapid.IntRange(0, 3).Draw(t, label+"emptyor") == 0 {
+			n.Rules = append(n.Rules, containerOr(t, "object", o.Scalar.Satisfied, label))
+			return n
+		}
 		if rapid.IntRange(0, 3).Draw(t, label+"ap") == 0 {
 			n.Rules = append(n.Rules, model.R("additionalProperties", rapid.SampledFrom([]model.Val{model.Bool(true), model.Bool(false), model.Str("any"), model.Str("string"), model.Str("integer"), model.Str("float"), model.Str("boolean"), model.Str("null"), model.Str("array"), model.Str("object"), model.Str("email"), model.Str("date"),
 				model.Str("decimal"), model.Str("datetime"), model.Str("uri"), model.Str("uuid"), model.Str("enum"), model.Str("mixed")}).Draw(t, label+"apv")))
@@ -511,6 +515,10 @@ func Tree(t *rapid.T, o TreeOpts, depth int, label string) *model.Node {
 		cnt := rapid.IntRange(0, 3).Draw(t, label+"na")
 		for i := 0; i < cnt; i++ {
 			n.Item(Tree(t, o, depth-1, fmt.Sprintf("%s[%d]", label, i)))
+		}
+		if cnt == 0 && rapid.IntRange(0, 3).Draw(t, label+"emptyor") == 0 {
+			n.Rules = append(n.Rules, containerOr(t, "array", o.Scalar.Satisfied, label))
+			return n
 		}
 		if cnt == 0 {
 			// an empty example array admits only zero bounds (documented restriction, error 1204)
@@ -549,6 +557,32 @@ func Tree(t *rapid.T, o TreeOpts, depth int, label string) *model.Node {
 		return n
 	}
 	return Scalar(t, o.Scalar, label)
+}
+
+// containerOr: an `or` rule for an empty object / array example ("an object, or a string, ..."): built-in
+// names only (user types beside a container example are a structural error), in either form
+func containerOr(t *rapid.T, kind string, satisfied bool, label string) model.Rule {
+	names := rapid.SliceOfNDistinct(rapid.SampledFrom([]string{"string", "integer", "float", "boolean", "null", "object", "array"}), 1, 2, func(s string) string { return s }).Draw(t, label+"oralts")
+	has := false
+	for _, x := range names {
+		has = has || x == kind
+	}
+	if !has && (satisfied || rapid.Bool().Draw(t, label+"orown")) {
+		names = append(names, kind)
+	}
+	if len(names) < 2 {
+		names = append(names, map[bool]string{true: "null", false: "string"}[names[0] == "string"])
+	}
+	var items []model.Val
+	for i, x := range Permutation(t, len(names), label+"orperm") {
+		_ = i
+		if rapid.IntRange(0, 2).Draw(t, label+"orset") == 0 {
+			items = append(items, model.Set(model.R("type", model.Str(names[x]))))
+		} else {
+			items = append(items, model.Str(names[x]))
+		}
+	}
+	return model.R("or", model.List(items...))
 }
 
 // ProjectOpts steers Project.
